@@ -877,6 +877,7 @@ class RefPaths:
         if tname == 'SingleAssignmentNode' and isinstance(st.lhs, ExprNodes.AttributeNode) \
                 and st.lhs.attribute == '_ref' and isinstance(st.rhs, ExprNodes.IntNode):
             led[_etext(st.lhs)] = int(st.rhs.value)
+        post_ref = []
         for c in _calls_in(st):
             f = _fname(c)
             if self.REF is REF and c.args and (
@@ -894,6 +895,16 @@ class RefPaths:
                 continue
             if f in self.REF and c.args:
                 a = _etext(c.args[0]) if self.REF is REF else '<calls>'
+                if self.REF is REF and a.startswith('<'):
+                    # the reference is taken on the value of an expression:
+                    #   x = addref(f(...))  -> it is held through x;  otherwise nobody holds it
+                    r_ = getattr(st, 'rhs', None)
+                    while isinstance(r_, ExprNodes.TypecastNode):
+                        r_ = r_.operand
+                    if r_ is c and isinstance(getattr(st, 'lhs', None), ExprNodes.NameNode):
+                        post_ref.append(st.lhs.name)    # applied after the assignment itself
+                        continue
+                    a = 'anonymous@%d' % c.pos[1]
                 led[a] = led.get(a, 0) + 1
                 led.pop('<dep>' + a, None)      # referenced: no longer at the operands' mercy
             elif f in self.DEREF and c.args:
@@ -937,6 +948,8 @@ class RefPaths:
                     and texts.count(t) == 1))
                 if deps:
                     led['<dep>' + x] = deps
+        for x in post_ref:
+            led[x] = led.get(x, 0) + 1
         # owned results:  x = OWNED(...)
         if isinstance(st, Nodes.SingleAssignmentNode) and isinstance(
                 st.rhs, ExprNodes.SimpleCallNode) and _fname(st.rhs) in OWNED:
@@ -946,7 +959,11 @@ class RefPaths:
         if isinstance(st, Nodes.SingleAssignmentNode) and isinstance(
                 st.lhs, (ExprNodes.NameNode, ExprNodes.AttributeNode)):
             k = '<null>' + _etext(st.lhs)
-            if isinstance(st.rhs, ExprNodes.NullNode):
+            if isinstance(st.rhs, ExprNodes.NullNode) or (
+                    isinstance(st.rhs, ExprNodes.IntNode) and int(st.rhs.value) == 0
+                    and isinstance(st.lhs, ExprNodes.AttributeNode)
+                    and st.lhs.attribute == 'node'):
+                # NULL pointer, or the integer handle 0 stored over a node field
                 led[k] = 1
             elif k in led:
                 del led[k]
